@@ -302,6 +302,67 @@ func adapters(r *lib.Report) (int64, int64) {
 			bad("currydef", "CurryDef done at %d args: invocations %v result %q done %v %s; want invocations %v", doneAt, seen, c.Result(), c.IsDone(), p, want)
 		}
 	}
+	// every sequence of up to 4 Calls over the argument tuples (), (1), (2,3) - a Call without arguments is a
+	// Call: it invokes the function once more with the arguments so far - x every MarkDone threshold
+	{
+		tuples := [][]int{{}, {1}, {2, 3}}
+		for doneAt := 0; doneAt <= 4; doneAt++ { // MarkDone once the function sees >= doneAt arguments
+			var seq []int
+			var rec func()
+			rec = func() {
+				if len(seq) > 0 {
+					var seen [][]int
+					c := fpgo.CurryNewGenerics(func(c *fpgo.CurryDef[int, string], a ...int) string {
+						seen = append(seen, append([]int{}, a...))
+						if len(a) >= doneAt {
+							c.MarkDone()
+						}
+						return fmt.Sprint(a)
+					})
+					trans++
+					states++
+					var want [][]int
+					acc := []int{}
+					done := false
+					wantRes := ""
+					for _, t := range seq {
+						if done {
+							break
+						}
+						acc = append(append([]int{}, acc...), tuples[t]...)
+						want = append(want, acc)
+						wantRes = fmt.Sprint(acc)
+						if len(acc) >= doneAt {
+							done = true
+						}
+					}
+					p := lib.Catch(func() {
+						for _, t := range seq {
+							if c.Call(tuples[t]...) != c {
+								panic("Call did not return the CurryDef it was called on")
+							}
+						}
+					})
+					if p != "" || fmt.Sprint(seen) != fmt.Sprint(want) || c.Result() != wantRes || c.IsDone() != done {
+						var calls []string
+						for _, t := range seq {
+							calls = append(calls, fmt.Sprintf("Call%v", tuples[t]))
+						}
+						bad("currydef", "CurryDef (MarkDone once it sees >= %d arguments), %v: invocations %v result %q done %v %s; want invocations %v result %q done %v", doneAt, calls, seen, c.Result(), c.IsDone(), p, want, wantRes, done)
+					}
+				}
+				if len(seq) == 4 {
+					return
+				}
+				for t := range tuples {
+					seq = append(seq, t)
+					rec()
+					seq = seq[:len(seq)-1]
+				}
+			}
+			rec()
+		}
+	}
 	// the interface{} constructor CurryNew, and two instances from the same function value (independent argument lists)
 	{
 		var seen []string
@@ -325,8 +386,14 @@ func adapters(r *lib.Report) (int64, int64) {
 		buf := make([]int, 1, 4)
 		buf[0] = 1
 		var seen1, seen2 []string
-		c1 := fpgo.CurryNewGenerics(func(c *fpgo.CurryDef[int, string], a ...int) string { seen1 = append(seen1, fmt.Sprint(a)); return fmt.Sprint(a) })
-		c2 := fpgo.CurryNewGenerics(func(c *fpgo.CurryDef[int, string], a ...int) string { seen2 = append(seen2, fmt.Sprint(a)); return fmt.Sprint(a) })
+		c1 := fpgo.CurryNewGenerics(func(c *fpgo.CurryDef[int, string], a ...int) string {
+			seen1 = append(seen1, fmt.Sprint(a))
+			return fmt.Sprint(a)
+		})
+		c2 := fpgo.CurryNewGenerics(func(c *fpgo.CurryDef[int, string], a ...int) string {
+			seen2 = append(seen2, fmt.Sprint(a))
+			return fmt.Sprint(a)
+		})
 		p := lib.Catch(func() {
 			c1.Call(buf...)
 			c2.Call(buf...)
@@ -589,6 +656,81 @@ func patterns(r *lib.Report, tier string, samples *[]interface{}) (int64, int64)
 			}
 		}
 	}
+	// an effect that fails: MatchFor has chosen the first accepting pattern - its effect is applied, no other
+	// pattern's effect is, and what the effect does (panic with its own value; a nested MatchFor that nothing
+	// accepts) is what the caller sees. Lists [p], [p, q] and [q, p] over all pairs of pattern kinds, p failing.
+	for _, mode := range []string{"BOOM", "NEST"} {
+		for i := range specs {
+			for j := -1; j < len(specs); j++ {
+				if j == i {
+					continue
+				}
+				for _, failingFirst := range []bool{true, false} {
+					if j < 0 && !failingFirst {
+						continue
+					}
+					states++
+					type ent struct {
+						spec int
+						tag  string
+					}
+					ents := []ent{{i, mode + " " + specs[i].name}}
+					if j >= 0 {
+						o := ent{j, "ok " + specs[j].name}
+						if failingFirst {
+							ents = append(ents, o)
+						} else {
+							ents = []ent{o, ents[0]}
+						}
+					}
+					var ps []fpgo.Pattern
+					var names []string
+					for _, e := range ents {
+						ps = append(ps, specs[e.spec].mk(e.tag))
+						names = append(names, e.tag)
+					}
+					pm := fpgo.DefPattern(ps...)
+					for _, pb := range probes {
+						trans++
+						val := pb.v
+						if rv := reflect.ValueOf(pb.v); pb.v != nil && rv.Kind() == reflect.Ptr && !rv.IsNil() && rv.Elem().Kind() == reflect.Struct {
+							val = rv.Elem().Interface()
+						}
+						want, wantApplied := "PANIC:Cannot match", []string{}
+						for _, e := range ents {
+							if specs[e.spec].accepts(val) {
+								wantApplied = []string{e.tag}
+								switch {
+								case strings.HasPrefix(e.tag, "BOOM"):
+									want = "PANIC:effect failure in " + e.tag
+								case strings.HasPrefix(e.tag, "NEST"):
+									want = "PANIC:Cannot match"
+								default:
+									want = e.tag + ":" + render(val)
+								}
+								break
+							}
+						}
+						effectsApplied = nil
+						got := ""
+						if p := lib.Catch(func() { got = fmt.Sprint(pm.MatchFor(pb.v)) }); p != "" {
+							got = "PANIC:other"
+							for _, w := range []string{"Cannot match", "effect failure in " + ents[0].tag, "effect failure in " + ents[len(ents)-1].tag} {
+								if strings.Contains(p, w) {
+									got = "PANIC:" + w
+									break
+								}
+							}
+						}
+						if got != want || fmt.Sprint(effectsApplied) != fmt.Sprint(wantApplied) {
+							r.Violation(fmt.Sprintf("C20|match-failing-effect|%s|probe=%s", mode, pb.name), fmt.Sprintf("patterns %v (BOOM: the effect panics, NEST: the effect runs a MatchFor that nothing accepts), value %s: MatchFor gave %s after applying the effects %v; the first accepting pattern gives %s, applying %v", names, pb.name, got, effectsApplied, want, wantApplied),
+								map[string]interface{}{"patterns": names, "probe": pb.name, "got": got, "want": want, "effects_applied": fmt.Sprint(effectsApplied)})
+						}
+					}
+				}
+			}
+		}
+	}
 	// Either is MatchFor over the same list
 	trans++
 	if got := fmt.Sprint(fpgo.Either("abc", specs[0].mk("k"), specs[5].mk("r"), specs[6].mk("o"))); got != "r:string=abc" {
@@ -608,8 +750,20 @@ func firstTried(specs []patSpec, ord []int, val interface{}) string {
 	return "?"
 }
 
+// effectsApplied counts the effects that ran (reset by the caller).
+var effectsApplied []string
+
 func eff(tag string) func(interface{}) interface{} {
-	return func(v interface{}) interface{} { return tag + ":" + render(v) }
+	return func(v interface{}) interface{} {
+		effectsApplied = append(effectsApplied, tag)
+		switch {
+		case strings.HasPrefix(tag, "BOOM"):
+			panic("effect failure in " + tag)
+		case strings.HasPrefix(tag, "NEST"): // an inner match that no pattern accepts
+			return fpgo.DefPattern(fpgo.InCaseOfEqual(struct{ unmatchable int }{1}, func(interface{}) interface{} { return "inner" })).MatchFor(v)
+		}
+		return tag + ":" + render(v)
+	}
 }
 
 func render(v interface{}) string {
